@@ -14,6 +14,8 @@ def sh(cmd, **kw):
     return subprocess.run(cmd, shell=True, cwd=wt, env=env, capture_output=True, text=True, **kw)
 assert sh("git status --porcelain").stdout.strip() == "", "worktree not pristine: " + wt
 cmd = meta["demo_cmd"]
+if "go test" in cmd:
+    cmd = cmd[cmd.index("go test"):]
 cmd = re.sub(r"^\s*cd\s+\S+(\s+\S+)?\s*&&\s*", "", cmd) if cmd.strip().startswith("cd ") else cmd
 cmd = cmd.replace("<repo root>", ".").replace("<worktree>", ".")
 m = re.findall(r"(\./[\w/.\-]+)", cmd)
